@@ -125,8 +125,11 @@ def item_id_from_label(lab):
 
 
 class World2:
-    def __init__(self, cfg):
+    def __init__(self, cfg, focus=None):
         self.cfg = cfg
+        self.focus = focus
+        self.other = []
+        self.degraded = False
         seams.install_poison()
         seams.set_poison(cfg.get("poison", "none"))
         seams.reset_globals()
@@ -306,8 +309,27 @@ class World2:
             if not self.viol:
                 self.check_all(op.get("a"))
             if self.viol:
-                break
+                if self.focus is None or any(self.focus == v["prop"] or self.focus in v["also"] for v in self.viol):
+                    break
+                self.other.extend(self.viol[:3])
+                self.viol = []
+                self.degraded = True
+                # adopt what is observed so that the same divergence is not reported at every step
+                for a in self.actors.values():
+                    if a.obj is None:
+                        continue
+                    k, res = self.call(self.observe, a)
+                    enc, prob = self.observe_encoded(a)
+                    if enc is not None and a.cls in CHANNELLED:
+                        a.model = list(enc)
+                    elif k == "ok":
+                        a.model = list(res[0])
+                    a.last_sha = None
+                if len(self.other) > 12:
+                    break
         self.stats["poisoned_allocs"] = seams.poison_count() - self.poison0
+        if not self.viol and self.other:
+            return self.other[:3]
         return self.viol
 
     def actor(self, k):
